@@ -407,6 +407,32 @@ func (c *FnCtx) specialCall(bc *blockCtx, name string, cc *ssa.CallCommon, fnVal
 		c.lockObl(bc, op, "(= "+cur+" "+want+")", pos)
 		c.heapStore(bc.st, an, arrSort("Int"), l.Base, next)
 		return unit, true
+	case "sort.Slice", "sort.SliceStable":
+		// the elements of the boxed slice are permuted; the comparator is assumed to have no effects
+		if len(args) < 1 || args[0].K != KIface {
+			return unit, false
+		}
+		sv, ok := c.boxes[args[0].Fs[1].T]
+		if !ok || sv.K != KSlice {
+			return unit, false
+		}
+		el := sv.Ty.Underlying().(*types.Slice).Elem()
+		lv := leavesOf(el)
+		if len(lv) != 1 {
+			return unit, false
+		}
+		c.assumed[name+" (permutes the slice; comparator without side effects)"] = true
+		an := elemArrayName(el, "")
+		srt := arr2Sort(lv[0].sort)
+		oldA := c.heapGet(bc.st, an, srt)
+		oldIn := "(select " + oldA + " " + sv.Fs[0].T + ")"
+		newIn := c.sc.fresh("sorted", arrSort(lv[0].sort))
+		perm := c.sc.fresh("perm", "(Array Int Int)")
+		off, ln := sv.Fs[1].T, sv.Fs[2].T
+		c.sc.assert(fmt.Sprintf("(forall ((i!p Int)) (! (=> (and (<= 0 i!p) (< i!p %s)) (and (<= 0 (select %s i!p)) (< (select %s i!p) %s) (= (select %s (idx %s i!p)) (select %s (idx %s (select %s i!p)))))) :pattern ((select %s (idx %s i!p)))))", ln, perm, perm, ln, newIn, off, oldIn, off, perm, newIn, off))
+		c.sc.assert(fmt.Sprintf("(forall ((k!p Int)) (! (=> (or (< k!p %s) (>= k!p (+ %s %s))) (= (select %s k!p) (select %s k!p))) :pattern ((select %s k!p))))", off, off, ln, newIn, oldIn, newIn))
+		c.heapStore(bc.st, an, srt, sv.Fs[0].T, newIn)
+		return unit, true
 	case "(*sync.Once).Do":
 		// the body is verified separately under its own contract (or inlined); here: run it at most once
 		l := c.ptrToLoc(args[0])
